@@ -519,7 +519,7 @@ pub fn c11x_uninit_slice_api() {
     end_reached!();
 }
 
-// @h props=C11,C13,C02 tier=quick group=bulk allow=assertion.failed:.index.<.self.len.*in.function.bytes::buf::UninitSlice::write_byte|placeholder.message.*in.function.core::panicking::assert_failed must_fail=. note=UninitSlice:write_byte_out_of_range_and_copy_from_slice_length_mismatch_must_panic
+// @h props=C11,C13,C02 tier=quick group=bulk allow=@PANIC@ must_fail=@PANIC@ note=UninitSlice:write_byte_out_of_range_and_copy_from_slice_length_mismatch_must_panic
 #[kani::proof]
 #[kani::unwind(8)]
 #[kani::stub(core::slice::index::slice_index_fail, stub_slice_index_fail)]
